@@ -71,6 +71,24 @@ def plan(tier):
     return {"cases": 2000, "shards": 8, "budget_s": 50}
 
 
+def edge_floors(k):
+    f = {"edge:" + sc: 2 * k for sc in EDGE_SCENARIOS}
+    f["edge:zero-filled-blocks"] = 1 * k
+    for solver, dfl in (("expmv", EXPMV_DEFAULTS), ("eigs", EIGS_DEFAULTS), ("lin_solver", LIN_DEFAULTS)):
+        for a in dfl:
+            f[f"edge_omitted_argument_compared:{solver}:{a}"] = 2 * k
+    f.update({"edge_defaults_compared": 6 * k, "edge_return_info_compared": 2 * k, "edge_unused_argument_compared": 8 * k,
+              "edge_falsy_t_checked": 20 * k, "edge_small_ncv_judged": 10 * k, "edge_tol_zero_checked": 4 * k,
+              "edge_zero_operator_checked": 18 * k, "edge_identity_checked": 24 * k, "edge_f_forms_compared": 12 * k,
+              "edge_vector_forms": 8 * k, "edge_expmv_judged": 8 * k, "edge_eigs_judged": 8 * k, "edge_lin_solver_judged": 8 * k,
+              "sector_dim_1:expmv": 3 * k, "sector_dim_1:eigs": 3 * k, "sector_dim_1:lin": 3 * k, "sector_dim_1:edge": 1 * k,
+              "eigs_degenerate_extremal": 8 * k, "edge_lin_solver_nearly_singular": 2 * k})
+    for w in ("SR", "LR", "LM", "SM"):
+        for h in ("hermitian-map", "non-hermitian-map"):
+            f[f"eigs:which:{w}:{h}"] = 4 * k
+    return f
+
+
 def floors(tier):
     k = 12 if tier == "thorough" else 1
     return {"expmv_calls": 150 * k, "eigs_calls": 80 * k, "lin_solver_calls": 50 * k,
@@ -84,7 +102,7 @@ def floors(tier):
             "eigs_variational_vs_start_checked": 20 * k, "expmv_normalized_judged": 50 * k,
             "eigs_scale_invariance_checked": 30 * k, "eigs_scale_invariance_checked:complete": 20 * k,
             "eigs_scale_invariance_checked:near-invariant:complete": 3 * k, "eigs_default_which_discriminating": 10 * k,
-            "lin_solver_linearity_checked": 20 * k}
+            "lin_solver_linearity_checked": 20 * k, **edge_floors(k)}
 
 
 # ------------------------------------------------------------------ line reach (sys.monitoring)
@@ -307,7 +325,11 @@ class Problem:
 
 def draw_legs(rng, sym, rank, dlo, dhi, nmax_full):
     for _ in range(40):
-        if rank == 1:
+        if dhi == 1:
+            dmax = 1                      # one-dimensional sector: every sector of every leg has dimension 1
+        elif dhi <= 40:
+            dmax = {1: max(2, dhi), 2: rng.choice((2, 3, 5)), 3: rng.choice((2, 3))}[rank]
+        elif rank == 1:
             dmax = rng.choice((12, 40, 120, 300))
         elif rank == 2:
             dmax = rng.choice((3, 6, 10, 16))
@@ -324,17 +346,21 @@ def draw_legs(rng, sym, rank, dlo, dhi, nmax_full):
     raise CaseSkip
 
 
-def gen_problem(rng, nprng, sym, tier, want_small=False):
+def gen_problem(rng, nprng, sym, tier, want_small=False, drange=None, dtype=None, rank=None):
     import yastn
     P = Problem()
     P.sym = sym
-    P.rank = rank = rng.choice((1, 2, 2, 3))
+    P.rank = rank = rng.choice((1, 2, 2, 3)) if rank is None else rank
     P.kind = rng.choice(("full", "full", "full", "spectator", "sum")) if rank >= 2 else "full"
     P.herm = rng.random() < 0.55
     P.dtype = rng.choice(("float64", "complex128"))
+    if dtype is not None:
+        P.dtype = dtype
     P.density = rng.choice((1.0, 1.0, 1.0, 0.6))
     dhi = 300 if tier == "thorough" else 150
     dlo, dhi = (2, 9) if want_small else (10, dhi)
+    if drange is not None:
+        dlo, dhi = drange
     legs, n, idx = draw_legs(rng, sym, rank, dlo, dhi, 900)
     P.legs, P.n, P.idx = legs, n, idx
     dims = [l.dim for l in legs]
@@ -408,11 +434,11 @@ def add_shift(P, sigma):
     P.nrm = float(np.linalg.norm(P.M, 2))
 
 
-def gen_vector(P, rng, nprng, kind):
+def gen_vector(P, rng, nprng, kind, force_real=False):
     """Start vector as HTensor + its dense sector image."""
     d, idx = P.d, P.idx
-    cplx = "complex" in P.dtype
-    dt = P.dtype
+    cplx = "complex" in P.dtype and not force_real
+    dt = P.dtype if not force_real else "float64"
 
     def rnd():
         x = nprng.standard_normal(d)
@@ -785,13 +811,14 @@ def case_expmv(ctx, P, rng, nprng):
 
 # ------------------------------------------------------------------ observed Krylov basis (shared by eigs / lin_solver)
 
-def observed_basis(P, ystart, tol, ncv, hflag):
+def observed_basis(P, ystart, tol, ncv, hflag, f=None, dense=None):
     """Run the library's own basis construction with the solver's arguments; return dense observations."""
     nrm0 = ystart.norm()
     V = [ystart / nrm0]
-    V, H, happy = ystart.expand_krylov_space(P.f, tol, ncv, hflag, V)
+    V, H, happy = ystart.expand_krylov_space(P.f if f is None else f, tol, ncv, hflag, V)
     m = len(V) if happy else len(V) - 1
-    Vd = np.array([D.obs_dense(x, P.legs).reshape(-1)[P.idx] for x in V[:m]]).T
+    dense = dense or (lambda x: D.obs_dense(x, P.legs).reshape(-1)[P.idx])
+    Vd = np.array([dense(x) for x in V[:m]]).T.reshape(P.d, m)
     sub = [abs(complex(H[(j + 1, j)])) for j in range(len(V)) if (j + 1, j) in H]
     orth = float(np.linalg.norm(Vd.conj().T @ Vd - np.eye(m))) if m else 0.0
     return {"m": m, "happy": happy, "sub": sub, "orth": orth, "V": Vd}
@@ -884,7 +911,7 @@ def case_eigs(ctx, P, rng, nprng):
         cands += [r, r, r + 1, r + 1, r + 3]
     ncv = max(2, rng.choice(cands))
     if vkind == "near" and P.d <= 28 and rng.random() < 0.6:
-        ncv = min(30, P.d + rng.randint(0, 4))      # near-invariant start in a space the basis can exhaust
+        ncv = max(2, min(30, P.d + rng.randint(0, 4)))      # near-invariant start in a space the basis can exhaust
     kmax = max(1, min(ncv - 1, r if status != "ambiguous" else 1, 3))
     k = rng.choice((1, 1, 2, 3))
     k = min(k, kmax)
@@ -923,6 +950,13 @@ def case_eigs(ctx, P, rng, nprng):
     if np.any(np.diff(crit) < -1e-10 * max(1.0, P.nrm)):
         fails.append(("eigs:which-order", f"which={which}: returned values {val.tolist()} are not ordered by the criterion"))
     ctx.count("eigs:which:" + which)
+    ctx.count("eigs:which:%s:%s" % (which, "hermitian-map" if P.herm else "non-hermitian-map"))
+    lam_all = P.lam if P.herm else np.linalg.eigvals(P.M)
+    if len(lam_all) > 1:
+        ls, _ = which_sort(lam_all, which)
+        if abs(ls[0] - ls[1]) <= 1e-9 * max(1.0, P.nrm):
+            ctx.count("eigs_degenerate_extremal")       # the eigenvalue `which` asks for is (at least) doubly degenerate
+            ctx.count("eigs_degenerate_extremal:" + which)
     # variational improvement over the start vector (Hermitian): theta_min <= rho(v0) <= theta_max
     if P.herm:
         rho = float(np.real(np.vdot(vec, P.M @ vec) / np.vdot(vec, vec)))
@@ -1124,6 +1158,406 @@ def judge_lin(ctx, P, xv, res, bvec, cond, premise, mech, wit):
                           f"Krylov space exhausted ({premise}) but ||x - solve(A,b)||/||x*|| = {err:.3e} (cond={cond:.2e}, res={res:.3e})", wit)
 
 
+
+# ------------------------------------------------------------------ edge families: defaults, falsy values, argument forms
+
+EDGE_SCENARIOS = ("defaults:expmv", "defaults:eigs", "defaults:lin_solver", "falsy-t", "small-args", "tol-zero", "zero-operator",
+                  "identity-f", "f-forms", "lazy-vector", "fused-vector:hard", "fused-vector:meta", "zero-filled-blocks",
+                  "dtype-mismatch")
+EXPMV_DEFAULTS = {"t": 1., "tol": 1e-12, "ncv": 10, "hermitian": False, "normalize": False, "return_info": False}
+EIGS_DEFAULTS = {"k": 1, "which": "SR", "ncv": 10, "hermitian": False}
+LIN_DEFAULTS = {"ncv": 10, "tol": 1e-13, "pinv_tol": 1e-13, "hermitian": False}
+
+
+class _Map:
+    """f as a bound method."""
+    def __init__(self, P):
+        self.P = P
+
+    def apply(self, x):
+        return self.P.f(x)
+
+
+def _apply(P, x):
+    return P.f(x)
+
+
+def guarded(ctx, fn, *a, **kw):
+    """A solver call of an edge scenario.  Non-termination / controller arithmetic failures are the business of the regular
+    expmv cases (recorded findings with narrow keys); here such a call is only counted."""
+    reach().start_call()
+    try:
+        return fn(*a, **kw)
+    except (ExpmvStuck, ExpmvBudget, ZeroDivisionError, OverflowError):
+        ctx.count("edge_call_aborted_unjudged")
+        return None
+
+
+def same_tensor(a, b, P, dense=None):
+    dense = dense or (lambda x: D.obs_dense(x, P.legs))
+    return type(a) is type(b) and str(a.yastn_dtype) == str(b.yastn_dtype) and tuple(a.n) == tuple(b.n) and \
+        np.array_equal(dense(a), dense(b))
+
+
+def same_result(r1, r2, P):
+    """Bitwise equality of two solver results (vector | (vector, info) | (values, vectors) | (vector, res))."""
+    if r1 is None or r2 is None:
+        return None
+    import yastn
+    if isinstance(r1, yastn.Tensor):
+        return isinstance(r2, yastn.Tensor) and same_tensor(r1, r2, P)
+    a, b = r1, r2
+    if isinstance(a[1], dict):                                   # expmv with info
+        return isinstance(b[1], dict) and same_tensor(a[0], b[0], P) and a[1] == b[1]
+    if isinstance(a[0], yastn.Tensor):                           # lin_solver
+        return same_tensor(a[0], b[0], P) and float(a[1]) == float(b[1])
+    return np.array_equal(np.asarray(a[0]), np.asarray(b[0])) and len(a[1]) == len(b[1]) and \
+        all(same_tensor(x, y, P) for x, y in zip(a[1], b[1]))     # eigs
+
+
+def mini_battery(ctx, P, rng, scen, yv, vec, f=None, dense=None, expect_complex=False):
+    """One expmv, one eigs and one lin_solver call on a start vector given in an unusual form, each decided by the dense oracle.
+    dense(y) -> sector image of a result (None + violation when it leaves the sector)."""
+    import yastn
+    f = f or P.f
+    wit = pdesc(P, scenario=scen)
+    dense = dense or (lambda y, what: observe_vector(ctx, what, y, P, wit))
+
+    def dtype_ok(y, what):
+        if expect_complex and "complex" not in str(y.yastn_dtype):
+            ctx.violation(f"edge:{scen}:{what}:result-dtype-not-promoted",
+                          f"{what}: real start vector, complex map: the result has dtype {y.yastn_dtype}", wit)
+    # expmv: moderate |t| ||A||, no growth regime
+    t = rng.choice((1.0, -1.0, 1j, complex(0.6, -0.8))) * min(3.0, 10 ** rng.uniform(-1, 0.5)) / P.nrm
+    P.growth = 0.0
+    orc = expm_oracle(P, t, vec)
+    hflag = P.herm and rng.random() < 0.7
+    if orc is not None and orc[2] <= 1e-13:
+        ctx.count("expmv_calls")
+        r = guarded(ctx, yastn.expmv, f, yv, t, 1e-10, rng.choice((3, 10)), hermitian=hflag, normalize=False, return_info=True)
+        if r is not None:
+            o = dense(r[0], "expmv")
+            if o is not None:
+                dtype_ok(r[0], "expmv")
+                ctx.count("edge_expmv_judged"); ctx.count("expmv_judged")
+                judge_expmv(ctx, P, {"t": t, "tol": 1e-10, "ncv": 10, "hermitian": hflag}, o, orc[0], orc[1], label="expmv@" + scen,
+                            vec=vec, info=r[1])
+    # eigs: a space the basis can exhaust whenever the sector is small
+    which = rng.choice(("SR", "LR", "LM", "SM"))
+    ncv = max(2, min(30, P.d + 2)) if P.d <= 28 else 10
+    rdim, status, _ = reachable_dim(P.M, vec, P.nrm)
+    obs = observed_basis(P, yv, 1e-13, ncv, hflag, f=f, dense=(lambda x: dense(x, "krylov-basis")))
+    premise, mech = breakdown_premise(P, rdim, status, ncv, obs)
+    if mech is None and obs["m"] >= 1:
+        ctx.count("eigs_calls")
+        val, Y = yastn.eigs(f, yv, k=1, which=which, ncv=ncv, hermitian=hflag)
+        y = dense(Y[0], "eigs")
+        if y is not None:
+            dtype_ok(Y[0], "eigs")
+            P.lam = np.linalg.eigvalsh(P.M) if P.herm else None
+            fails = []
+            res = judge_eigs_pair(ctx, P, complex(np.asarray(val)[0]), y, hflag, None, fails, obs["orth"])
+            ctx.count("edge_eigs_judged"); ctx.count("eigs_pairs_judged")
+            if premise is not None and not ctx.margin("eigs:complete-residual", res, 1e-9 * max(1.0, P.nrm)):
+                fails.append(("value:eigs:inexact-on-complete-space", f"complete Krylov space ({premise}) but residual {res:.3e}"))
+            for k_, t_ in fails:
+                ctx.violation(f"{k_}@{scen}", f"[{scen}] which={which}, ncv={ncv}, hermitian={hflag}: {t_}", wit)
+    # lin_solver
+    cond = float(np.linalg.cond(P.M))
+    if cond < 1e8:
+        bvec = vec
+        v0 = yv * 0
+        ctx.count("lin_solver_calls")
+        x, res = yastn.lin_solver(f, yv, v0, ncv=min(30, P.d), tol=1e-13, pinv_tol=1e-13, hermitian=hflag)
+        xv = dense(x, "lin_solver")
+        if xv is not None:
+            dtype_ok(x, "lin_solver")
+            ctx.count("edge_lin_solver_judged")
+            true = float(np.linalg.norm(P.M @ xv - bvec))
+            scale = P.nrm * float(np.linalg.norm(xv)) + float(np.linalg.norm(bvec))
+            if not ctx.margin("lin_solver:|res-true|/scale", abs(float(res) - true), 1e-11 * scale):
+                ctx.violation(f"value:lin_solver:residual@{scen}", f"[{scen}] returned res={float(res):.6e}, recomputed {true:.6e}", wit)
+
+
+def case_edge(ctx, P, rng, nprng, scen):
+    import functools
+    import yastn
+    ctx.count("edge:" + scen)
+    wit = pdesc(P, scenario=scen)
+    hv, vec = gen_vector(P, rng, nprng, "random")
+    yv = hv.to_yastn(P.cfg)
+    f = P.f
+    hf = P.herm and rng.random() < 0.5
+
+    def differ(what, detail):
+        ctx.violation(f"edge:{scen}:{what}", f"[{scen}] {detail}", wit)
+
+    if scen == "defaults:expmv":
+        # (a) only f and v: t = 1, tol = 1e-12, ncv = 10, Arnoldi, no normalisation, no info (documented signature)
+        ctx.count("expmv_calls", 2)
+        r0 = guarded(ctx, yastn.expmv, f, yv)
+        r1 = guarded(ctx, yastn.expmv, f, yv, **EXPMV_DEFAULTS)
+        eq = same_result(r0, r1, P)
+        if eq is not None:
+            ctx.count("edge_defaults_compared")
+            if not eq:
+                differ("pure-defaults", "expmv(f, v) differs from expmv(f, v, t=1., tol=1e-12, ncv=10, hermitian=False, normalize=False, return_info=False)")
+            P.growth = 0.0
+            orc = expm_oracle(P, 1.0, vec)
+            if orc is not None and orc[2] <= 1e-13 and isinstance(r0, yastn.Tensor):
+                o = observe_vector(ctx, "expmv", r0, P, wit)
+                if o is not None:
+                    ctx.count("edge_expmv_judged"); ctx.count("expmv_judged")
+                    judge_expmv(ctx, P, {"t": 1.0, "tol": 1e-12, "ncv": 10, "hermitian": False}, o, orc[0], orc[1], label="expmv@" + scen, vec=vec)
+        # (b) every optional argument left out one at a time == the same call with the documented default spelled out
+        E = {"t": rng.choice((0.4, -0.7j, complex(0.3, 0.5))) / P.nrm, "tol": 1e-10, "ncv": 7, "hermitian": hf, "normalize": True,
+             "return_info": True}
+        full = guarded(ctx, yastn.expmv, f, yv, **E)
+        for a in E:
+            kw = {k_: v_ for k_, v_ in E.items() if k_ != a}
+            ctx.count("expmv_calls", 2)
+            ra = guarded(ctx, yastn.expmv, f, yv, **kw)
+            rb = guarded(ctx, yastn.expmv, f, yv, **dict(kw, **{a: EXPMV_DEFAULTS[a]}))
+            eq = same_result(ra, rb, P)
+            if eq is not None:
+                ctx.count("edge_omitted_argument_compared"); ctx.count("edge_omitted_argument_compared:expmv:" + a)
+                if not eq:
+                    differ(f"omitted:{a}", f"expmv without `{a}` differs from expmv with {a}={EXPMV_DEFAULTS[a]!r} (other arguments {kw})")
+            if a == "return_info" and ra is not None and full is not None:
+                ctx.count("edge_return_info_compared")
+                if not (isinstance(ra, yastn.Tensor) and same_tensor(ra, full[0], P)):
+                    differ("return_info-changes-result", "expmv(..., return_info=True)[0] differs from the call without return_info")
+    elif scen == "defaults:eigs":
+        if P.d < 4 or reachable_dim(P.M, vec, P.nrm)[0] < 3:      # k = 2 below needs a Krylov space of dimension >= 2
+            raise CaseSkip
+        ctx.count("eigs_calls", 2)
+        r0 = yastn.eigs(f, yv)
+        r1 = yastn.eigs(f, yv, **EIGS_DEFAULTS)
+        ctx.count("edge_defaults_compared")
+        if not same_result(r0, r1, P):
+            differ("pure-defaults", f"eigs(f, v0) -> {np.asarray(r0[0]).tolist()} differs from eigs(f, v0, k=1, which='SR', ncv=10, hermitian=False) "
+                                    f"-> {np.asarray(r1[0]).tolist()}")
+        E = {"k": 2, "which": rng.choice(("LR", "LM", "SM")), "ncv": 7, "hermitian": hf}
+        for a in E:
+            kw = {k_: v_ for k_, v_ in E.items() if k_ != a}
+            ctx.count("eigs_calls", 2)
+            ra = yastn.eigs(f, yv, **kw)
+            rb = yastn.eigs(f, yv, **dict(kw, **{a: EIGS_DEFAULTS[a]}))
+            ctx.count("edge_omitted_argument_compared"); ctx.count("edge_omitted_argument_compared:eigs:" + a)
+            if not same_result(ra, rb, P):
+                differ(f"omitted:{a}", f"eigs without `{a}` -> {np.asarray(ra[0]).tolist()} differs from eigs with {a}={EIGS_DEFAULTS[a]!r} "
+                                       f"-> {np.asarray(rb[0]).tolist()} (other arguments {kw})")
+        # documented as not implemented: tol and maxiter must not influence the result
+        base = yastn.eigs(f, yv, **E)
+        for extra in ({"tol": 0}, {"tol": 1e-3}, {"maxiter": 3}, {"maxiter": None, "tol": 1e-13}):
+            ctx.count("eigs_calls"); ctx.count("edge_unused_argument_compared")
+            if not same_result(base, yastn.eigs(f, yv, **E, **extra), P):
+                differ("unused-argument", f"eigs(..., {extra}) differs from the call without it although the argument is documented as not implemented")
+    elif scen == "defaults:lin_solver":
+        if P.herm and P.d <= 9 and rng.random() < 0.6:
+            # nearly singular map (one eigenvalue ~1e-11 ||A||): the only regime where the pseudo-inverse cut-off matters
+            lam_ = np.linalg.eigvalsh(P.M)
+            add_shift(P, float(-lam_[rng.randrange(P.d)] + 1e-11 * P.nrm))
+            ctx.count("edge_lin_solver_nearly_singular")
+        hb, bvec = gen_vector(P, rng, nprng, "random")
+        yb = hb.to_yastn(P.cfg)
+        y0 = yb * 0
+        ctx.count("lin_solver_calls", 2)
+        r0 = yastn.lin_solver(f, yb, y0)
+        r1 = yastn.lin_solver(f, yb, y0, **LIN_DEFAULTS)
+        ctx.count("edge_defaults_compared")
+        if not same_result(r0, r1, P):
+            differ("pure-defaults", "lin_solver(f, b, v0) differs from lin_solver(f, b, v0, ncv=10, tol=1e-13, pinv_tol=1e-13, hermitian=False)")
+        xv = observe_vector(ctx, "lin_solver", r0[0], P, wit)
+        if xv is not None and not P.shift:
+            # (the nearly singular map is A - lambda + 1e-11: its dense image and the two-term yastn map differ by the round-off of
+            #  the cancelling terms, far above the tiny ||A - lambda||; only the equality clauses below are decided there)
+            ctx.count("edge_lin_solver_judged")
+            judge_lin(ctx, P, xv, r0[1], bvec, float(np.linalg.cond(P.M)), None, None, wit)
+        E = {"ncv": 10 if P.shift else 7, "tol": 1e-10, "pinv_tol": 1e-12, "hermitian": hf}
+        for a in E:
+            kw = {k_: v_ for k_, v_ in E.items() if k_ != a}
+            ctx.count("lin_solver_calls", 2)
+            ra = yastn.lin_solver(f, yb, y0, **kw)
+            rb = yastn.lin_solver(f, yb, y0, **dict(kw, **{a: LIN_DEFAULTS[a]}))
+            ctx.count("edge_omitted_argument_compared"); ctx.count("edge_omitted_argument_compared:lin_solver:" + a)
+            if not same_result(ra, rb, P):
+                differ(f"omitted:{a}", f"lin_solver without `{a}` differs from lin_solver with {a}={LIN_DEFAULTS[a]!r} (other arguments {kw})")
+    elif scen == "falsy-t":
+        nv = float(np.linalg.norm(vec))
+        for t in (0, 0.0, -0.0, 0j, complex(-0.0, 0.0)):
+            for nz in (False, True):
+                ctx.count("expmv_calls"); ctx.count("edge_falsy_t_checked")
+                out, info = yastn.expmv(f, yv, t, 1e-10, rng.choice((1, 5, 10)), hermitian=hf, normalize=nz, return_info=True)
+                o = observe_vector(ctx, "expmv", out, P, wit)
+                want = vec / nv if nz else vec
+                if o is not None and (not ctx.margin("expmv:t=0", float(np.linalg.norm(o - want)), 1e-13 * float(np.linalg.norm(want)))
+                                      or info.get("steps") != 0 or info.get("krylov_steps") != 0):
+                    differ("t=0", f"expmv(t={t!r}, normalize={nz}) is not the (normalised) start vector or reports steps: {info}")
+    elif scen == "small-args":
+        # smallest meaningful values: ncv = 1, 2 (expmv, lin_solver), k = 1 with ncv = 2 (eigs needs ncv > k)
+        P.growth = 0.0
+        t = rng.choice((1.0, -1j)) * 0.3 / P.nrm
+        orc = expm_oracle(P, t, vec)
+        for ncv in (1, 2):
+            ctx.count("expmv_calls")
+            r = guarded(ctx, yastn.expmv, f, yv, t, 1e-10, ncv, hermitian=hf, return_info=True)
+            if r is not None and orc is not None:
+                o = observe_vector(ctx, "expmv", r[0], P, wit)
+                if o is not None:
+                    ctx.count("edge_small_ncv_judged"); ctx.count("expmv_judged")
+                    judge_expmv(ctx, P, {"t": t, "tol": 1e-10, "ncv": ncv, "hermitian": hf}, o, orc[0], orc[1], label="expmv@" + scen, vec=vec, info=r[1])
+            hb, bvec = gen_vector(P, rng, nprng, "random")
+            yb = hb.to_yastn(P.cfg)
+            ctx.count("lin_solver_calls")
+            x, res = yastn.lin_solver(f, yb, yb * 0, ncv=ncv, hermitian=hf)
+            xv = observe_vector(ctx, "lin_solver", x, P, wit)
+            if xv is not None:
+                ctx.count("edge_small_ncv_judged")
+                judge_lin(ctx, P, xv, res, bvec, float(np.linalg.cond(P.M)), None, None, wit)
+        if P.d >= 2:
+            which = rng.choice(("SR", "LR", "LM", "SM"))
+            ctx.count("eigs_calls")
+            val, Y = yastn.eigs(f, yv, k=1, which=which, ncv=2, hermitian=hf)
+            y = observe_vector(ctx, "eigs", Y[0], P, wit)
+            if y is not None:
+                P.lam = np.linalg.eigvalsh(P.M) if P.herm else None
+                fails = []
+                judge_eigs_pair(ctx, P, complex(np.asarray(val)[0]), y, hf, None, fails)
+                ctx.count("edge_small_ncv_judged"); ctx.count("eigs_pairs_judged")
+                if P.herm:
+                    rho = float(np.real(np.vdot(vec, P.M @ vec) / np.vdot(vec, vec)))
+                    th = complex(np.asarray(val)[0]).real
+                    if (which == "SR" and th > rho + 1e-9 * max(1, P.nrm)) or (which == "LR" and th < rho - 1e-9 * max(1, P.nrm)):
+                        fails.append(("value:eigs:which-not-variational", f"ncv=2, which={which}: {th} vs Rayleigh quotient {rho} of the start vector"))
+                for k_, t_ in fails:
+                    ctx.violation(f"{k_}@{scen}", f"[{scen}] {t_}", wit)
+    elif scen == "tol-zero":
+        # eigs: tol is documented as not implemented -> no effect.  lin_solver: with an incomplete space the residual is still the
+        # true one.  expmv: tol = 0 has no documented meaning (the controller divides by tol) -> not called.
+        if P.d >= 3:
+            ctx.count("eigs_calls", 2); ctx.count("edge_tol_zero_checked")
+            if not same_result(yastn.eigs(f, yv, k=1, ncv=3, hermitian=hf), yastn.eigs(f, yv, k=1, ncv=3, hermitian=hf, tol=0), P):
+                differ("eigs-tol=0", "eigs(tol=0) differs from eigs() although tol is documented as not implemented")
+            hb, bvec = gen_vector(P, rng, nprng, "random")
+            yb = hb.to_yastn(P.cfg)
+            ctx.count("lin_solver_calls"); ctx.count("edge_tol_zero_checked")
+            x, res = yastn.lin_solver(f, yb, yb * 0, ncv=min(2, P.d - 1), tol=0, hermitian=hf)
+            xv = observe_vector(ctx, "lin_solver", x, P, wit)
+            if xv is not None:
+                judge_lin(ctx, P, xv, res, bvec, float(np.linalg.cond(P.M)), None, None, wit)
+        ctx.count("expmv_tol_zero_undefined_not_called")
+    elif scen == "zero-operator":
+        f0 = lambda x: f(x) * 0.0
+        nv = float(np.linalg.norm(vec))
+        for t in (0.7, 1j, complex(-2, 1)):
+            for nz in (False, True):
+                ctx.count("expmv_calls"); ctx.count("edge_zero_operator_checked")
+                out = yastn.expmv(f0, yv, t, 1e-10, 5, hermitian=rng.random() < 0.5, normalize=nz)
+                o = observe_vector(ctx, "expmv", out, P, wit)
+                want = vec / nv if nz else vec
+                if o is not None and not ctx.margin("expmv:zero-operator", float(np.linalg.norm(o - want)), 1e-13 * float(np.linalg.norm(want))):
+                    differ("expmv", f"exp(t*0) v != v for t={t}, normalize={nz}")
+        for hflag in (False, True):
+            ctx.count("eigs_calls"); ctx.count("edge_zero_operator_checked")
+            val, Y = yastn.eigs(f0, yv, k=1, which=rng.choice(("SR", "LR", "LM", "SM")), ncv=4, hermitian=hflag)
+            y = observe_vector(ctx, "eigs", Y[0], P, wit)
+            if y is not None and (abs(complex(np.asarray(val)[0])) > 1e-14 or
+                                  abs(abs(np.vdot(y, vec)) - np.linalg.norm(y) * nv) > 1e-12 * nv * np.linalg.norm(y)):
+                differ("eigs", f"zero operator: eigs returned {np.asarray(val).tolist()} / a vector not parallel to v0")
+        ctx.count("lin_solver_calls"); ctx.count("edge_zero_operator_checked")
+        x, res = yastn.lin_solver(f0, yv, yv * 0, ncv=3)
+        xv = observe_vector(ctx, "lin_solver", x, P, wit)
+        if xv is not None and abs(float(res) - nv) > 1e-12 * nv:
+            differ("lin_solver", f"zero operator: returned res={float(res)!r} but ||0 - b|| = {nv!r}")
+    elif scen == "identity-f":
+        before = D.obs_dense(yv, P.legs).copy()
+        for c in (1.0, 2.5):
+            g = (lambda x: x) if c == 1.0 else (lambda x: c * x)     # c = 1: f returns the very object it was given
+            for t in (0.7, 1j, complex(-0.3, 2)):
+                ctx.count("expmv_calls"); ctx.count("edge_identity_checked")
+                out = yastn.expmv(g, yv, t, 1e-10, 5, hermitian=rng.random() < 0.5)
+                o = observe_vector(ctx, "expmv", out, P, wit)
+                want = np.exp(t * c) * vec
+                if o is not None and not ctx.margin("expmv:scalar-map", float(np.linalg.norm(o - want)), 1e-12 * float(np.linalg.norm(want))):
+                    differ("expmv", f"f(x) = {c}*x: expmv(t={t}) != exp({c}t) v (relative error {np.linalg.norm(o - want) / np.linalg.norm(want):.2e})")
+            ctx.count("eigs_calls"); ctx.count("edge_identity_checked")
+            val, Y = yastn.eigs(g, yv, k=1, ncv=4, hermitian=rng.random() < 0.5)
+            y = observe_vector(ctx, "eigs", Y[0], P, wit)
+            if y is not None and (abs(complex(np.asarray(val)[0]) - c) > 1e-13 * c or
+                                  abs(abs(np.vdot(y, vec)) - np.linalg.norm(y) * np.linalg.norm(vec)) > 1e-12 * np.linalg.norm(vec) * np.linalg.norm(y)):
+                differ("eigs", f"f(x) = {c}*x: eigs returned {np.asarray(val).tolist()}")
+            hb, bvec = gen_vector(P, rng, nprng, "random")
+            yb = hb.to_yastn(P.cfg)
+            for y0 in (yb * 0, yv):
+                ctx.count("lin_solver_calls"); ctx.count("edge_identity_checked")
+                x, res = yastn.lin_solver(g, yb, y0, ncv=3)
+                xv = observe_vector(ctx, "lin_solver", x, P, wit)
+                if xv is not None and (np.linalg.norm(xv - bvec / c) > 1e-12 * np.linalg.norm(bvec) or float(res) > 1e-12 * np.linalg.norm(bvec)):
+                    differ("lin_solver", f"f(x) = {c}*x: x != b/{c} (error {np.linalg.norm(xv - bvec / c):.2e}, res {float(res):.2e})")
+        if not np.array_equal(D.obs_dense(yv, P.legs), before):
+            differ("start-vector-modified", "the start vector was modified by a solver whose map returns its argument")
+    elif scen == "f-forms":
+        forms = {"lambda": (lambda x: P.f(x)), "bound-method": _Map(P).apply, "partial": functools.partial(_apply, P)}
+        t = rng.choice((0.5, 1j)) / P.nrm
+        hb, bvec = gen_vector(P, rng, nprng, "random")
+        yb = hb.to_yastn(P.cfg)
+        res = {}
+        for name, g in forms.items():
+            ctx.count("expmv_calls"); ctx.count("eigs_calls"); ctx.count("lin_solver_calls")
+            res[name] = (guarded(ctx, yastn.expmv, g, yv, t, 1e-10, 6, hermitian=hf, return_info=True),
+                         yastn.eigs(g, yv, k=1, which="LR", ncv=min(5, max(2, P.d)), hermitian=hf),
+                         yastn.lin_solver(g, yb, yb * 0, ncv=4, hermitian=hf))
+        for name in ("bound-method", "partial"):
+            for i, solver in enumerate(("expmv", "eigs", "lin_solver")):
+                eq = same_result(res["lambda"][i], res[name][i], P)
+                if eq is not None:
+                    ctx.count("edge_f_forms_compared")
+                    if not eq:
+                        differ(f"{solver}:{name}", f"{solver} with f given as {name} differs from f given as lambda")
+    elif scen == "lazy-vector":
+        if P.rank < 2:
+            raise CaseSkip
+        q = list(range(P.rank))
+        rng.shuffle(q)
+        if q == sorted(q):
+            q = q[1:] + q[:1]
+        inv = [int(x) for x in np.argsort(q)]
+        lazy = hv.permute(q).to_yastn(P.cfg).transpose(inv)          # pending transpose, same logical vector
+        ctx.count("edge_vector_forms")
+        mini_battery(ctx, P, rng, scen, lazy, vec)
+    elif scen.startswith("fused-vector"):
+        if P.rank < 2:
+            raise CaseSkip
+        mode = scen.split(":")[1]
+        groups = (tuple(range(P.rank)),) if (P.rank == 2 or rng.random() < 0.5) else ((0, 1), 2)
+        fuse = lambda x: x.fuse_legs(axes=groups, mode=mode)
+        unfuse = lambda x: x.unfuse_legs(axes=0)
+        ff = lambda x: fuse(P.f(unfuse(x)))
+        ctx.count("edge_vector_forms")
+        mini_battery(ctx, P, rng, scen, fuse(yv), vec, f=ff,
+                     dense=lambda y, what: observe_vector(ctx, what, unfuse(y), P, pdesc(P, scenario=scen, groups=groups)))
+    elif scen == "zero-filled-blocks":
+        keys = sorted(hv.blocks)
+        if len(keys) < 2:
+            raise CaseSkip
+        zero = set(rng.sample(keys, max(1, len(keys) // 2)))
+        hz = hv._new(blocks={k_: (np.zeros_like(b_) if k_ in zero else b_) for k_, b_ in hv.blocks.items()})
+        vz = hz.dense().reshape(-1)[P.idx]
+        if not np.linalg.norm(vz) > 0:
+            raise CaseSkip
+        ctx.count("edge_vector_forms")
+        mini_battery(ctx, P, rng, scen, hz.to_yastn(P.cfg), vz)          # blocks stored as explicit zeros
+    elif scen == "dtype-mismatch":
+        hr, vr = gen_vector(P, rng, nprng, "random", force_real=True)      # P is complex (forced by the driver), v is real
+        yr = hr.to_yastn(P.cfg)
+        if "complex" in str(yr.yastn_dtype) or "complex" not in P.dtype:
+            raise RuntimeError("harness: dtype-mismatch scenario needs a real vector and a complex map")
+        ctx.count("edge_vector_forms")
+        mini_battery(ctx, P, rng, scen, yr, vr, expect_complex=True)
+    ctx.case(("edge", scen, psig(P)), True, dict(wit, d=P.d) if scen in ("defaults:eigs", "fused-vector:hard") else None)
+
+
 # ------------------------------------------------------------------ driver
 
 def run_case(ctx, idx):
@@ -1132,10 +1566,24 @@ def run_case(ctx, idx):
     R.start_case()
     try:
         sym = G.ALL_SYMS[idx % len(G.ALL_SYMS)]
-        solver = ("expmv", "eigs", "expmv", "lin", "expmv", "eigs", "lin", "expmv", "eigs", "expmv")[(idx // 7) % 10]
-        small = rng.random() < (0.35 if solver != "expmv" else 0.12)
-        P = gen_problem(rng, nprng, sym, ctx.tier, want_small=small)
-        {"expmv": case_expmv, "eigs": case_eigs, "lin": case_lin}[solver](ctx, P, rng, nprng)
+        slot = (idx // 7) % 12
+        solver = ("expmv", "eigs", "edge", "expmv", "lin", "expmv", "eigs", "lin", "edge", "expmv", "eigs", "expmv")[slot]
+        tiny = rng.random() < 0.07          # a one-dimensional sector (single block of dimension 1): exact in one Krylov step
+        if solver == "edge":
+            scen = EDGE_SCENARIOS[(2 * (idx // 84) + (slot == 8)) % len(EDGE_SCENARIOS)]
+            needs_rank2 = scen in ("lazy-vector", "fused-vector:hard", "fused-vector:meta", "zero-filled-blocks")
+            P = gen_problem(rng, nprng, sym, ctx.tier, drange=(1, 1) if (tiny and not needs_rank2 and scen != "defaults:eigs") else (2, 40),
+                            dtype="complex128" if scen == "dtype-mismatch" else None,
+                            rank=rng.choice((2, 2, 3)) if needs_rank2 else None)
+            if P.d == 1:
+                ctx.count("sector_dim_1:edge")
+            case_edge(ctx, P, rng, nprng, scen)
+        else:
+            small = rng.random() < (0.35 if solver != "expmv" else 0.12)
+            P = gen_problem(rng, nprng, sym, ctx.tier, want_small=small, drange=(1, 1) if tiny else None)
+            if P.d == 1:
+                ctx.count("sector_dim_1:" + solver)
+            {"expmv": case_expmv, "eigs": case_eigs, "lin": case_lin}[solver](ctx, P, rng, nprng)
         ctx.count("f_applications", P.calls)
     finally:
         R.end_case(ctx)
